@@ -102,3 +102,59 @@ func verifH_C03_hostile_cells() {
 		verifReach("hostile")
 	}
 }
+
+// The wrapped-request shape: a single binary column named "request" whose value is
+// an inner IPC stream. The offsets that delimit that value are client bytes too.
+//
+//verif:use ipc pipe httpx
+//verif:bound one unary call through serveOne (pipe) or handleUnary (HTTP) whose parameter batch is the wrapped shape {request: binary}: a real *array.Binary of 1 row over 4 value bytes whose two offsets are ANY pair in -1..6 (in range, past the end, running backwards, negative), null or not; well-formed offsets delimit an inner stream holding a batch of the declared schema; abstract IPC for the inner stream, real unwrap and binding
+func verifH_C03_hostile_wrapped_request() {
+	verifResetIPC()
+	s := NewServer()
+	s.serverID = "srv"
+	Unary(s, "paint", verifC03HostileHandler)
+	decl := s.methods["paint"].ParamsSchema
+	if decl == nil {
+		return
+	}
+	o0, o1 := verifNondetInt32("value.offset0"), verifNondetInt32("value.offset1")
+	verifAssume(o0 >= -1 && o0 <= 6 && o1 >= -1 && o1 <= 6)
+	bin := new(array.Binary)
+	d := verifC03Data(1)
+	verifSetField(d, "dtype", arrow.DataType(arrow.BinaryTypes.Binary))
+	verifSetField(bin, "array.data", d)
+	if verifNondetBool("null") {
+		verifSetField(bin, "array.nullBitmapBytes", []byte{0})
+		verifSetField(d, "nulls", 1)
+	}
+	verifSetField(bin, "valueOffsets", []int32{o0, o1})
+	verifSetField(bin, "valueBytes", []byte("Sxyz"))
+	outer := arrow.NewSchema([]arrow.Field{{Name: "request", Type: arrow.BinaryTypes.Binary}}, nil)
+	req := &verifBatch{schema: outer, rows: 1, refs: 1, cols: []arrow.Array{bin}, tag: 1}
+	req.meta, req.hasMeta = arrow.NewMetadata([]string{MetaMethod, MetaRequestVersion}, []string{"paint", ProtocolVersion}), true
+	verifInQueue = append(verifInQueue, &verifInStream{batches: []*verifBatch{req}, schema: outer, failAt: -1})
+	// what the inner stream decodes to, if the unwrap gets that far: a batch of another schema (refused by the gate)
+	verifMemQueue = []*verifInStream{{batches: []*verifBatch{verifNewBatch(verifDataSchema, 1, 2, nil, nil)}, schema: verifDataSchema, failAt: -1}}
+	answered := false
+	if verifNondetBool("over_http") {
+		h := &HttpServer{server: s, tokenKey: verifXKey}
+		r := &http.Request{Method: "POST", Header: http.Header{}, URL: &url.URL{Path: "/paint"}, RemoteAddr: "1.2.3.4:5"}
+		r.Header.Set("Content-Type", arrowContentType)
+		r.SetPathValue("method", "paint")
+		rec := verifNewRecorder()
+		h.handleUnary(rec, r.WithContext(context.Background()))
+		answered = rec.status != 0
+	} else {
+		sink := &verifSink{}
+		err := s.serveOne(context.Background(), &verifConn{}, sink, &shmConnState{})
+		out := verifSinkStreams(sink)
+		answered = err == nil && len(out) == 1 && out[0].closed
+	}
+	verifReach("wrapped-served")
+	verifAssert(answered, "whatever the offsets of the wrapped request say, the request is answered and nothing escapes dispatch")
+	if o0 >= 0 && o0 <= o1 && o1 <= 4 {
+		verifReach("wrapped-well-formed")
+	} else {
+		verifReach("wrapped-hostile")
+	}
+}
